@@ -94,6 +94,10 @@ def stage_item(item):
         out['panic'] = raw['panic']
     n = nparams(st)
     if n is None:
+        if item.get('per_definition') and 'linearized' in st:
+            out['per_definition'] = per_definition(st['linearized'], item.get('budgets') or budgets())
+            out['status'] = 'violation' if out['per_definition']['violations'] else 'ok'
+            return out
         out.update(status='nomain')
         return out
     R = runners(st)
@@ -124,6 +128,10 @@ def stage_item(item):
         if probs:
             out['uniqueness'] = probs[:5]
             out['status'] = 'violation'
+    if item.get('per_definition') and 'linearized' in st:
+        out['per_definition'] = per_definition(st['linearized'], b)
+        if out['per_definition']['violations'] and out['status'] == 'ok':
+            out['status'] = 'violation'
     out['secs'] = round(time.time() - t0, 2)
     if 'src' in item:
         out['src'] = item['src']
@@ -132,6 +140,32 @@ def stage_item(item):
         tw = stage_item({'name': item['name'] + '#twin', 'src': item['twin'], 'pairs': item['pairs'], 'budgets': item.get('budgets')})
         out['twin_status'] = tw['status']
     return out
+
+
+def per_definition(lin_node, b):
+    """C05, 'every path through every definition': each definition of the linearised program is walked from an
+    arbitrary environment of its parameter types (integers symbolic, objects with an undetermined constructor so that
+    a switch forks into every clause, closures opaque); every statement's exact-environment rule is checked"""
+    import symrun
+    lp = axm.Prog(lin_node)
+    out = {'definitions': 0, 'paths': 0, 'cut': 0, 'violations': []}
+    bvmod_reset()
+    for name in lp.order:
+        out['definitions'] += 1
+        solver = symrun.Solver(b.get('timeout_ms', 3000))
+        for p in symrun.explore(lambda ctx: axm.run_definition(lp, name, ctx), solver, [], b['max_steps'], b['max_paths'],
+                                time.time() + b.get('time_budget', 30.0)):
+            out['paths'] += 1
+            if p.status == 'cutoff':
+                out['cut'] += 1
+            elif p.status == 'stuck':
+                out['violations'].append({'definition': name[0], 'note': p.note})
+    return out
+
+
+def bvmod_reset():
+    import bv as _b
+    _b.reset_div()
 
 
 def run_tv(pid, items, rule, key_fn=None, pre=None):
@@ -144,6 +178,7 @@ def run_tv(pid, items, rule, key_fn=None, pre=None):
     solver_s = 0.0
     samples = []
     disagreements = 0
+    pd_defs = pd_paths = 0
     for r in results:
         if 'error' in r and 'name' not in r:
             chk.inconc(f"machinery error: {r['error']}")
@@ -171,6 +206,13 @@ def run_tv(pid, items, rule, key_fn=None, pre=None):
                 chk.inconc(f"{r['name']} {k}: {w}")
         if r.get('uniqueness'):
             chk.report("focus/binder-uniqueness", f"{r['name']}: {r['uniqueness'][0]}", r)
+        pd = r.get('per_definition')
+        if pd:
+            pd_defs += pd['definitions']
+            pd_paths += pd['paths']
+            for v in pd['violations'][:2]:
+                chk.report("linearize/inexact-environment/per-definition", f"{r['name']}: definition {v['definition']}: {v['note']}"[:300],
+                           {'program': r['name'], 'src': r.get('src'), 'violation': v})
         if r['status'] == 'error':
             chk.inconc(f"{r['name']}: {r.get('what')}")
         if r.get('violation_panic'):
@@ -184,7 +226,7 @@ def run_tv(pid, items, rule, key_fn=None, pre=None):
         'path_pairs_decided': pairs, 'paths_cut_by_budget': cut, 'undefined_source_paths_discarded': undefined,
         'solver_queries': queries, 'solver_seconds': round(solver_s, 1),
         'evaluations': progs, 'distinct_nontrivial': max(2, progs), 'rule': rule,
-        'budgets': b, 'trusted_base': TRUSTED,
+        'budgets': b, 'trusted_base': TRUSTED, 'per_definition': {'definitions_walked': pd_defs, 'paths_walked': pd_paths},
         'explanation': "programs enumerated, inputs solver-decided: main's parameters are 64-bit symbols; every explored path pair is "
                        "compared by a z3 query; paths cut by the step/fork budget are counted and outside the claim",
     })
@@ -285,7 +327,7 @@ def _examples(E):
 def c05():
     tier = fw.tier()
     import axprogs
-    items = [dict(it, pairs=[('shrunk', 'linearized')]) for it in corpus() + gen_items(tier, 'all')]
+    items = [dict(it, pairs=[('shrunk', 'linearized')], per_definition=True) for it in corpus() + gen_items(tier, 'all')]
     direct = [{'name': 'axcut/' + p_['name'], 'prog': p_['prog'], 'ax': True} for p_ in axprogs.programs()]
     items += direct
     return run_tv('C05', items, "AxCut programs produced by the pipeline for the C02-C04 sets; AxM(named) x AxM(positional) where the positional "
